@@ -872,7 +872,13 @@ func (g *Gen) evalCall(x *ECall, env *Env) Val {
 		// held(x.mu): the ghost bit set by Lock and cleared by Unlock in units with `track-locks`
 		ap, ok := g.evalAddr(x.Args[0], env)
 		if !ok {
-			panic(contractErr("held(): expected a mutex field x.mu"))
+			// a pointer-valued expression (e.g. a local `mu := n.subLock(ch)`)
+			pv := g.eval(x.Args[0], env)
+			lp, lok := g.lockLoc(pv)
+			if !lok {
+				panic(contractErr("held(): expected a mutex field x.mu or a *sync.Mutex value"))
+			}
+			ap = lp
 		}
 		h := env.heap
 		if h == nil {
